@@ -29,7 +29,7 @@ TIERS = {
     "thorough": {"shards": 16, "cases": 3000000, "timeout": 3000},
 }
 FLOORS = {
-    "quick": {"counts": {"reports_delivered": 20000, "readings_compared": 150000,
+    "quick": {"counts": {"reports_delivered": 15000, "readings_compared": 120000,
                          "reports_with_leading_ok": 2000, "unmentioned_letters_checked": 50000}, "keys": 200},
     "thorough": {"counts": {"reports_delivered": 1000000}, "keys": 300},
 }
